@@ -159,7 +159,7 @@ PARTS = [
 import yaml  # noqa: E402
 
 from vfw import gen_truth, model_master  # noqa: E402
-from vfw.core import Reject  # noqa: E402
+from vfw.core import Reject, load_output_yaml, numbers  # noqa: E402
 from vfw.pipeline import Workflow  # noqa: E402
 from vfw.props.C06 import read_curve  # noqa: E402
 
@@ -219,7 +219,7 @@ def check_cli(case):
         vector_text = guarded(wf.simulate, 'rise', ppath, True)
     measured = {k: sum(r.values()) / len(r) for k, r in per_level.items()}
     ks = sorted(measured)
-    doc = yaml.safe_load(table_text)
+    doc = load_output_yaml(table_text, 'rise-table')
     if not (isinstance(doc, list) and doc and isinstance(doc[0], list)
             and len(doc[0]) == 3 and all(isinstance(x, str) for x in doc[0])):
         raise Violation('rise-table-header-missing', repr(doc)[:200])
@@ -228,6 +228,10 @@ def check_cli(case):
             and 'simulated' in header[2]):
         raise Violation('rise-table-header-wrong', repr(doc[0]))
     rows = doc[1:]
+    for row in rows:
+        if not (isinstance(row, list) and len(row) == 3):
+            raise Violation('rise-table-row-shape', repr(row)[:120])
+        numbers(row, 'rise-table-row')
     if len(rows) != len(ks):
         raise Violation('rise-table-row-count',
                         '{} rows, {} levels'.format(len(rows), len(ks)))
@@ -248,7 +252,8 @@ def check_cli(case):
     if abs(sum(sim) / len(sim) - sum(meas) / len(meas)) > 1e-9 * sscale:
         raise Violation('rise-table-mean-not-measured-mean',
                         repr((sum(sim) / len(sim), sum(meas) / len(meas))))
-    vector = yaml.safe_load(vector_text)
+    vector = numbers(load_output_yaml(vector_text, 'rise-vector'),
+                     'rise-vector')
     if len(vector) != len(sim) or any(
             a != b and abs(a - b) > 1e-14 * max(abs(a), abs(b))
             for a, b in zip(vector, sim)):
